@@ -389,6 +389,7 @@ where
             }
           }
 
+          #[cfg(rzmq_verif)] crate::verif::batch::trace(self.handle, 0, egress_buffer.pending_messages(), sndhwm, sndbatch_count, max_count, max_bytes, logical_max_bytes, start_len, &outgoing_batch, &core_carryover);
           if !outgoing_batch.is_empty() {
             counter!(global, global_drained_msgs, add, outgoing_batch.len() as u64);
           }
@@ -645,6 +646,7 @@ where
                   }
                 }
 
+                #[cfg(rzmq_verif)] crate::verif::batch::trace(self.handle, 1, egress_buffer.pending_messages(), sndhwm, sndbatch_count, max_count, max_bytes, logical_max_bytes, start_len, &outgoing_batch, &core_carryover);
                 if !outgoing_batch.is_empty() {
                   counter!(global, global_drained_msgs, add, outgoing_batch.len() as u64);
                 }
